@@ -1272,6 +1272,110 @@ def r_reindexcover(E):
     return res
 
 
+# ---------------------------------------------------------------------------------------------- R-DELSHIFT
+_DLS_POSITIVE = '''
+def drop_unchanged(changes):
+    unchanged = []
+    for index, change in enumerate(changes):
+        if change[0] == change[1]:
+            unchanged.append(index)
+    for index in unchanged:
+        del changes[index]
+'''
+_DLS_NEGATIVE = '''
+def drop_unchanged(changes):
+    unchanged = []
+    for index, change in enumerate(changes):
+        if change[0] == change[1]:
+            unchanged.append(index)
+    for index in reversed(unchanged):
+        del changes[index]
+def drop_unchanged2(changes):
+    unchanged = [i for i in range(len(changes)) if changes[i][0] == changes[i][1]]
+    for index in sorted(unchanged, reverse=True):
+        changes.pop(index)
+def drop_keys(table, keys):
+    for k in keys:
+        del table[k]
+'''
+
+
+def shifting_deletions(tree):
+    """[(function, deleting loop, sequence text)]: positions of a sequence are collected while it is walked forwards
+    (`for i, x in enumerate(S)` / `for i in range(len(S))` … `L.append(i)`, or the same as a comprehension) and then deleted
+    from S in that same increasing order (`for i in L: del S[i]` / `S.pop(i)`): each deletion shifts what follows by one, so
+    from the second one on the wrong element goes (or IndexError)"""
+    out = []
+    for fn in [f for f in ast.walk(tree) if isinstance(f, ast.FunctionDef)]:
+        # index lists: name -> sequence text
+        idx_lists = {}
+        for loop in [n for n in ast.walk(fn) if isinstance(n, ast.For)]:
+            ivar = seq = None
+            it = loop.iter
+            if isinstance(it, ast.Call) and isinstance(it.func, ast.Name) and it.func.id == "enumerate" and it.args \
+                    and isinstance(loop.target, ast.Tuple) and isinstance(loop.target.elts[0], ast.Name):
+                ivar, seq = loop.target.elts[0].id, norm(it.args[0])
+            elif isinstance(it, ast.Call) and isinstance(it.func, ast.Name) and it.func.id == "range" and len(it.args) == 1 \
+                    and isinstance(it.args[0], ast.Call) and norm(it.args[0].func) == "len" and isinstance(loop.target, ast.Name):
+                ivar, seq = loop.target.id, norm(it.args[0].args[0])
+            if ivar is None:
+                continue
+            for c in [x for x in ast.walk(loop) if isinstance(x, ast.Call) and isinstance(x.func, ast.Attribute)
+                      and x.func.attr == "append" and isinstance(x.func.value, ast.Name) and len(x.args) == 1
+                      and isinstance(x.args[0], ast.Name) and x.args[0].id == ivar]:
+                idx_lists[c.func.value.id] = seq
+        for a in [n for n in ast.walk(fn) if isinstance(n, ast.Assign) and len(n.targets) == 1 and isinstance(n.targets[0], ast.Name)
+                  and isinstance(n.value, ast.ListComp) and len(n.value.generators) == 1]:
+            g = a.value.generators[0]
+            if isinstance(a.value.elt, ast.Name) and isinstance(g.target, ast.Name) and a.value.elt.id == g.target.id \
+                    and isinstance(g.iter, ast.Call) and norm(g.iter.func) == "range" and len(g.iter.args) == 1 \
+                    and isinstance(g.iter.args[0], ast.Call) and norm(g.iter.args[0].func) == "len":
+                idx_lists[a.targets[0].id] = norm(g.iter.args[0].args[0])
+        if not idx_lists:
+            continue
+        for loop in [n for n in ast.walk(fn) if isinstance(n, ast.For) and isinstance(n.target, ast.Name)]:
+            it = loop.iter
+            if isinstance(it, ast.Call) and isinstance(it.func, ast.Name) and it.func.id in ("list", "tuple") and len(it.args) == 1:
+                it = it.args[0]
+            if not (isinstance(it, ast.Name) and it.id in idx_lists):
+                continue
+            seq, i = idx_lists[it.id], loop.target.id
+            dels = [n for n in ast.walk(loop) if (isinstance(n, ast.Delete) and any(
+                isinstance(t, ast.Subscript) and norm(t.value) == seq and norm(t.slice) == i for t in n.targets))
+                or (isinstance(n, ast.Call) and isinstance(n.func, ast.Attribute) and n.func.attr == "pop"
+                    and norm(n.func.value) == seq and len(n.args) == 1 and norm(n.args[0]) == i)]
+            if dels:
+                out.append((fn, loop, seq))
+    return out
+
+
+@rule("R-DELSHIFT")
+def r_delshift(E):
+    pm = E.pm
+    res = RuleResult("R-DELSHIFT", "positions collected while a sequence is walked forwards are not deleted from it in that "
+                                   "same increasing order (`for i in collected: del seq[i]`): every deletion moves what "
+                                   "follows one place down, so from the second deletion on another element is removed — "
+                                   "they are deleted from the end (`reversed`, `sorted(…, reverse=True)`)")
+    for mod, (rel, tree, src) in sorted(pm.modules.items()):
+        res.instances += len([n for n in ast.walk(tree) if isinstance(n, ast.Delete)
+                              or (isinstance(n, ast.Call) and isinstance(n.func, ast.Attribute) and n.func.attr == "pop")])
+        for fn, loop, seq in shifting_deletions(tree):
+            res.findings.append(Finding(
+                "R-DELSHIFT", f"{rel}:{fn.name} :: deletes from {seq} by increasing position",
+                f"{fn.name} deletes from `{seq}` the positions listed in `{norm(loop.iter)}`, which were collected in "
+                f"increasing order: after the first deletion every later position is off by one, so with two entries to drop "
+                f"the second deletion removes the element *after* the intended one (a real change is silently discarded) or "
+                f"raises IndexError", rel, loop.lineno, fn.name, {"clauses": _area(rel)}))
+    pos = shifting_deletions(set_parents(ast.parse(_DLS_POSITIVE)))
+    neg = shifting_deletions(set_parents(ast.parse(_DLS_NEGATIVE)))
+    if len(pos) != 1 or neg:
+        raise AnalysisError(f"R-DELSHIFT: embedded examples: {len(pos)} of 1 positive recognised, {len(neg)} false reports")
+    res.instances += 1
+    res.samples = [{"embedded_positive_example_recognised": True, "embedded_twins_silent": True}]
+    res.floor = 10
+    return res
+
+
 # ---------------------------------------------------------------------------------------------- R-ORDEFAULT
 @rule("R-ORDEFAULT")
 def r_ordefault(E):
